@@ -22,7 +22,17 @@ ke  == <<>>
 
 NumCanonDef == (<<49, 101, 50>> :> <<49, 48, 48>>) @@
                (<<49, 56, 52, 52, 54, 55, 52, 52, 48, 55, 51, 55, 48, 57, 53, 53, 49, 54, 49, 54>> :>
-                <<49, 56, 52, 52, 54, 55, 52, 52, 48, 55, 51, 55, 48, 57, 53, 53, 50, 48, 48, 48>>)
+                <<49, 56, 52, 52, 54, 55, 52, 52, 48, 55, 51, 55, 48, 57, 53, 53, 50, 48, 48, 48>>) @@
+               \* floats whose ECMAScript form is a long run of digits and zeros (1e17 .. 1e21), and the switch to exponent form
+               (<<49, 101, 49, 55>> :> <<49, 48, 48, 48, 48, 48, 48, 48, 48, 48, 48, 48, 48, 48, 48, 48, 48, 48>>) @@
+               (<<45, 51, 69, 43, 49, 56>> :> <<45, 51, 48, 48, 48, 48, 48, 48, 48, 48, 48, 48, 48, 48, 48, 48, 48, 48, 48, 48>>) @@
+               (<<49, 46, 50, 101, 49, 55>> :> <<49, 50, 48, 48, 48, 48, 48, 48, 48, 48, 48, 48, 48, 48, 48, 48, 48, 48>>) @@
+               (<<53, 101, 50, 48>> :> <<53, 48, 48, 48, 48, 48, 48, 48, 48, 48, 48, 48, 48, 48, 48, 48, 48, 48, 48, 48, 48>>) @@
+               (<<49, 101, 50, 49>> :> <<49, 101, 43, 50, 49>>) @@
+               (<<49, 69, 45, 55>> :> <<49, 101, 45, 55>>) @@
+               (<<48, 46, 48, 48, 48, 48, 48, 49>> :> <<48, 46, 48, 48, 48, 48, 48, 49>>) @@
+               (<<49, 101, 49, 54>> :> <<49, 48, 48, 48, 48, 48, 48, 48, 48, 48, 48, 48, 48, 48, 48, 48, 48>>) @@
+               (<<57, 101, 49, 57>> :> <<57, 48, 48, 48, 48, 48, 48, 48, 48, 48, 48, 48, 48, 48, 48, 48, 48, 48, 48, 48>>)
 
 \* ---- every tree shape with exactly k nodes over a leaf set ----------------
 Key(i) == IF i % 2 = 1 THEN ka ELSE kb        \* a b a ...: three members give a duplicate key
@@ -67,8 +77,9 @@ DocsEditFull == Shapes(4, {n, sa, i1}) \cup Multi \cup Flat \cup Wide
 
 SetOpsDef == {<<"null", 0>>, <<"bool", TRUE>>, <<"bool", FALSE>>, <<"int", <<45, 55>>>>,
               <<"uint", <<49, 56, 52, 52, 54, 55, 52, 52, 48, 55, 51, 55, 48, 57, 53, 53, 49, 54, 49, 53>>>>,
+              <<"uint", <<55>>>>,       \* an unsigned tag holding a value that also fits int64 (only SetUInt produces that)
               <<"float", <<48, 46, 53>>>>, <<"str", <<122, 9>>>>, <<"str", <<>>>>}
-SetOpsSmall == {<<"null", 0>>, <<"bool", TRUE>>, <<"int", <<45, 55>>>>, <<"float", <<48, 46, 53>>>>, <<"str", <<122, 9>>>>}
+SetOpsSmall == {<<"null", 0>>, <<"bool", TRUE>>, <<"int", <<45, 55>>>>, <<"uint", <<55>>>>, <<"float", <<48, 46, 53>>>>, <<"str", <<122, 9>>>>}
 \* three-operation histories on a few documents; one replacement string is longer than the initial string buffer (128 bytes)
 LongStr == [i \in 1..150 |-> 97 + (i % 26)]
 DocsTiny == {<<<<"a", <<sa, i1, <<"o", <<<<ka, sq>>, <<kb, n>>>>>>>>>>>>, <<<<"o", <<<<ka, <<"a", <<i1, sa>>>>>>, <<kb, f25>>>>>>>>,
@@ -98,6 +109,21 @@ nRBC == <<"num", <<57, 48, 48, 55, 49, 57, 57, 50, 53, 52, 55, 52, 48, 57, 57, 5
 nl == <<"num", <<55, 55, 56, 50, 50, 50, 48, 49, 53, 54, 48, 57, 54, 50, 49, 55, 48, 57, 49>>>>
 f68 == <<"num", <<49, 101, 43, 54, 56>>>>
 DocsTagBytes == {<<<<"o", <<<<ka, <<"a", <<nN, f68>>>>>>, <<kb, <<"a", <<nLBC, <<"a", <<nR, nRBC>>>>, nQ>>>>>>, <<kc, nLBK>>, <<kd, <<"a", <<nl>>>>>>>>>>>>}
+\* 1e17, -3E+18, 1.2e17, 5e20, 1e21, 1E-7, 0.000001, 1e16, 9e19, 100000000000000000000, 123456789012345680000, -200000000000000000000
+bf0 == <<"num", <<49, 101, 49, 55>>>>
+bf1 == <<"num", <<45, 51, 69, 43, 49, 56>>>>
+bf2 == <<"num", <<49, 46, 50, 101, 49, 55>>>>
+bf3 == <<"num", <<53, 101, 50, 48>>>>
+bf4 == <<"num", <<49, 101, 50, 49>>>>
+bf5 == <<"num", <<49, 69, 45, 55>>>>
+bf6 == <<"num", <<48, 46, 48, 48, 48, 48, 48, 49>>>>
+bf7 == <<"num", <<49, 101, 49, 54>>>>
+bf8 == <<"num", <<57, 101, 49, 57>>>>
+bf9 == <<"num", <<49, 48, 48, 48, 48, 48, 48, 48, 48, 48, 48, 48, 48, 48, 48, 48, 48, 48, 48, 48, 48>>>>
+bf10 == <<"num", <<49, 50, 51, 52, 53, 54, 55, 56, 57, 48, 49, 50, 51, 52, 53, 54, 56, 48, 48, 48, 48>>>>
+bf11 == <<"num", <<45, 50, 48, 48, 48, 48, 48, 48, 48, 48, 48, 48, 48, 48, 48, 48, 48, 48, 48, 48, 48, 48>>>>
+BigFloats == {bf0, bf1, bf2, bf3, bf4, bf5, bf6, bf7, bf8, bf9, bf10, bf11}
+DocsBigFloats == {<<<<"a", <<x, y>>>>>> : x \in BigFloats, y \in {n, bf0}} \cup {<<<<"o", <<<<ka, x>>>>>>>> : x \in BigFloats}
 SetOpsNull == {<<"null", 0>>, <<"str", <<122>>>>}
 FilterKeysDef == {<<122>>}
 =============================================================================
